@@ -128,13 +128,13 @@ def dump (u : Univ) (s : State) : String :=
   let d := u.keys.filterMap (fun k => (ps.ack k).map (fun d => s!"ak:{keyStr k}={d}"))
   let e := u.pairs.filterMap (fun p => if ps.clean p != 0 then some s!"cl:{pairStr p}={ps.clean p}" else none)
   let f := u.pairs.filterMap (fun p => if ps.maxAck p != 0 then some s!"mx:{pairStr p}={ps.maxAck p}" else none)
-  let g := u.classes.filterMap (fun c => (s.nft.denom c).map (fun d => s!"nd:{hexOf c}={d.creator}"))
+  let g := u.classes.filterMap (fun c => (s.apps.nft.denom c).map (fun d => s!"nd:{hexOf c}={d.creator}"))
   let h := u.classes.flatMap (fun c => u.ids.filterMap (fun i =>
-              (s.nft.owner (c, i)).map (fun o => s!"no:{hexOf c}/{hexOf i}={o}")))
-  let i := u.mclasses.filterMap (fun c => (s.mt.denom c).map (fun o => s!"md:{hexOf c}={o}"))
+              (s.apps.nft.owner (c, i)).map (fun o => s!"no:{hexOf c}/{hexOf i}={o}")))
+  let i := u.mclasses.filterMap (fun c => (s.apps.mt.denom c).map (fun o => s!"md:{hexOf c}={o}"))
   let j := u.mclasses.flatMap (fun c => u.mids.flatMap (fun i =>
-              (if s.mt.supply (c, i) != 0 then [s!"ms:{hexOf c}/{hexOf i}={s.mt.supply (c, i)}"] else []) ++
-              u.addrs.filterMap (fun a => if s.mt.bal (c, i, a) != 0 then some s!"mb:{hexOf c}/{hexOf i}/{a}={s.mt.bal (c, i, a)}" else none)))
+              (if s.apps.mt.supply (c, i) != 0 then [s!"ms:{hexOf c}/{hexOf i}={s.apps.mt.supply (c, i)}"] else []) ++
+              u.addrs.filterMap (fun a => if s.apps.mt.bal (c, i, a) != 0 then some s!"mb:{hexOf c}/{hexOf i}/{a}={s.apps.mt.bal (c, i, a)}" else none)))
   " ".intercalate (sortStrs (a ++ b ++ c ++ d ++ e ++ f ++ g ++ h ++ i ++ j))
 
 structure St where
